@@ -1242,7 +1242,7 @@ def derived_observable(func, data, array_mode=False, **kwargs):
     if data.ndim == 1:
         values = np.array([o.value for o in data])
     else:
-        values = np.vectorize(lambda x: x.value)(data)
+        values = np.vectorize(lambda x: x.value, otypes=[np.float64])(data)
 
     new_values = func(values, **kwargs)
 
